@@ -47,7 +47,8 @@ def _known_loader(ctx):
 
 
 def pstr(prog):
-    return "+".join(o["k"] + ("(%s)" % o.get("a", o.get("i", "")) if ("a" in o or "i" in o) else "") for o in prog) or "-"
+    return "+".join(o["k"] + ("(%s)" % o.get("a", o.get("i", "")) if ("a" in o or "i" in o) else "")
+                    + ("~" + o["f"] if o.get("f") else "") for o in prog) or "-"
 
 
 def kinds(prog):
@@ -83,7 +84,10 @@ def concretize(s, rng):
 FEATS = ["", "", "", "", "noref", "noref", "nomount", "nohead"]
 
 
-def world_dims(s, rng, srcref=None, feat=None, pre=None):
+RDRS = ["", "", "plain", "file", "pipe"]
+
+
+def world_dims(s, rng, srcref=None, feat=None, pre=None, rdr=None):
     """Dimensions of the world the design spec does not distinguish (its prediction is the same for all values): how
     the source is named, optional features of the registries, a target that already holds the source image."""
     s["srcref"] = (srcref if srcref is not None else ("digest" if rng.random() < 0.25 else ""))
@@ -91,6 +95,9 @@ def world_dims(s, rng, srcref=None, feat=None, pre=None):
         s["srcref"] = ""
     s["feat"] = (feat if feat is not None else rng.choice(FEATS)) if s["place"] != "dir-same" and s["place"] != "dir-cross" else ""
     s["pre"] = (pre if pre is not None else int(rng.random() < 0.3)) if s["cls"] == "cross" else 0
+    # how the stream of an added layer reaches WithLayerAddTar: bytes.Reader, a bare io.Reader that yields one byte per
+    # call, an *os.File (regctl --layer-add tar=), the read end of a pipe (regctl --layer-add dir=)
+    s["rdr"] = (rdr if rdr is not None else rng.choice(RDRS)) if any(o["k"] == "AddLayer" for o in s["prog"]) else ""
     if s["feat"] == "nohead" and s["img"].get("alg") == "sha512":
         # a registry that addresses a manifest by sha512 and does not say so: the client identifies the manifest by the
         # sha256 of its body, "the original digest" is not observable - outside the property
@@ -281,6 +288,7 @@ def run(ctx):
           ctx.tlc("ModMC", "C13_mc_core3.cfg", label="repaired design: alignment universe, interaction core, programs <= 3", workers=8),
           ctx.tlc("ModMC", "C13_mc_shapes.cfg", label="repaired design: shapes x media types x data x referrers x placements, every option", workers=8)]
     if thorough:
+        mc.append(ctx.tlc("ModMC", "C13_mc_t_forms.cfg", label="repaired design: forms of the added stream, all images / placements of that universe", timeout=3000))
         mc.append(ctx.tlc("ModMC", "C13_mc_t_align3.cfg", label="repaired design: alignment universe, programs <= 3, per-iteration steps", timeout=3000))
         mc.append(ctx.tlc("ModMC", "C13_mc_t_core4.cfg", label="repaired design: alignment universe, interaction core, programs <= 4", timeout=3000))
         mc.append(ctx.tlc("ModMC", "C13_mc_t_shapes2.cfg", label="repaired design: shapes, every pair of options", timeout=3000))
@@ -299,13 +307,21 @@ def run(ctx):
     trans = sum(r["generated"] for r in mc)
 
     # ---- 2. scenarios from TLC
+    dropped = [0]
+    gen_counts = {}
+
     def gen(cfg, num=None, label=""):
         kw = {}
         if num:
             kw = dict(simulate="num=%d" % num, depth=30, extra=["-seed", str(ctx.seed)])
         g = ctx.tlc_scenarios("ModGen", cfg, workers=1, label="generator " + label, timeout=1800, **kw)
+        gen_counts[cfg] = (g["distinct"], g["generated"])
         seen, out = set(), []
         for s in g["scenarios"]:
+            # garbage in (a compressed stream announced as an uncompressed tar by the caller): not driven, see Gigo in Mod.tla
+            if s.pop("gigo", 0):
+                dropped[0] += 1
+                continue
             k = json.dumps(s, sort_keys=True)
             if k not in seen:
                 seen.add(k)
@@ -319,12 +335,12 @@ def run(ctx):
         raise vlib.ToolError("generator produced too few scenarios (%d pairs, %d random)" % (len(pairs_all), len(rand_all)))
 
     def optkey(o):
-        return (o["k"], o["a"], o["v"], o["i"])
+        return (o["k"], o["a"], o["v"], o["i"], o.get("f", ""))
     chosen = []
     # one program per option of the vocabulary (thorough: every generated single) + the empty program per class
     by_opt = {}
     for s in singles_all:
-        k = optkey(s["prog"][0]) if s["prog"] else ("-", s["place"], s["src"], 0)
+        k = optkey(s["prog"][0]) if s["prog"] else ("-", s["place"], s["src"], 0, "")
         by_opt.setdefault(k, []).append(s)
     # per option: one scenario where it changes something and one where it sets what is already there (a no-op by its
     # documented meaning), when the generator produced both
@@ -351,6 +367,26 @@ def run(ctx):
         mixed = {id(s) for v in by_pair.values() for s in v}
         chosen += vlib.sample(rng, [s for s in pairs_all if id(s) not in mixed], 1200)
     n_pairs = len(chosen) - n_single
+    # round 5: the form of the stream handed to WithLayerAddTar (plain / already compressed in five formats / no entries /
+    # no end-of-archive blocks) alone and paired, in both orders, with every option that reads or rewrites the added layer
+    forms_all = gen("C13_gen_t_forms.cfg" if thorough else "C13_gen_forms.cfg", None, "forms of the stream of an added layer")
+    # (that generator run is exhaustive and checks the invariants of the design spec as well: its states count as model checking)
+    fc = gen_counts["C13_gen_t_forms.cfg" if thorough else "C13_gen_forms.cfg"]
+    states += fc[0]
+    trans += fc[1]
+    by_form = {}
+    for s in forms_all:
+        if any(o["k"] == "AddLayer" and o["f"] for o in s["prog"]):
+            by_form.setdefault(tuple(optkey(o) for o in s["prog"]), []).append(s)
+    if len(by_form) < 400:
+        raise vlib.ToolError("generator produced too few programs with a formed stream (%d)" % len(by_form))
+    fkeys = sorted(by_form)
+    fsingle = [k for k in fkeys if len(k) == 1]
+    fpairs = [k for k in fkeys if len(k) == 2]
+    # (quick: the single options are already among the one-per-option scenarios above)
+    for k in (fsingle + fpairs) if thorough else vlib.sample(rng, fpairs, 90):
+        chosen += vlib.sample(rng, by_form[k], 2) if thorough else [rng.choice(by_form[k])]
+    n_forms = len(chosen) - n_single - n_pairs
     chosen += rand_all
     scns = [concretize(s, rng) for s in chosen]
     # shapes outside the prediction: a share of the programs on an attestation index / an image with a foreign layer
@@ -384,7 +420,7 @@ def run(ctx):
             must.append(concretize({"img": uimg, "prog": [{"k": k, "a": a, "v": "", "i": 0}], "src": rng.choice(["reg", "dir"]),
                                     "place": rng.choice(["cross", "same-digest", "same-replace"]), "noop": 1}, rng))
     for m in must:      # regression scenarios run in the plain world (by tag, default features, empty target)
-        world_dims(m, rng, srcref="", feat="", pre=0)
+        world_dims(m, rng, srcref="", feat="", pre=0, rdr="")
     # world dimensions one at a time on a few programs that touch referrers, blobs and manifests (quick), and the full
     # product srcref x registry features x pre-populated target on a sample of the scenarios (thorough)
     probes = []
@@ -555,8 +591,10 @@ def run(ctx):
         "exhaustive_note": "TLC is exhaustive over the stated universes of the design spec; the replay on the real code is one "
                            "scenario per option of the vocabulary, every add/remove pair and a seeded sample of programs of length 0..5",
         "scenarios": len(scns), "single_option_scenarios": n_single, "pair_scenarios": n_pairs, "random_scenarios": len(rand_all),
+        "added_stream_form_scenarios": n_forms, "added_stream_forms_driven": sorted({o.get("f", "") for s in scns for o in s["prog"] if o["k"] == "AddLayer"}),
+        "garbage_in_scenarios_not_driven": dropped[0],
         "unpredicted_shape_scenarios": len(extra), "regression_scenarios": len(must), "world_dimension_scenarios": len(probes),
-        "world_dimension_values": {k: sorted({str(s.get(k, "")) for s in scns}) for k in ("srcref", "feat", "pre", "place", "tgt")},
+        "world_dimension_values": {k: sorted({str(s.get(k, "")) for s in scns}) for k in ("srcref", "feat", "pre", "place", "tgt", "rdr")},
         "image_dimension_values": {k: sorted({str(s["img"].get(k, "")) for s in scns})
                                    for k in ("n", "shape", "mt", "comp", "data", "refs", "ext", "alg", "ut", "ser", "base")},
         "noop_scenarios": len([s for s in scns if s.get("noop")]),
@@ -571,6 +609,10 @@ def run(ctx):
     assumptions = [
         "catalogue images only: 1-3 small tar layers, fixed config; file-level semantics of layer edits beyond re-digesting are not checked",
         "option parameters restricted to the vocabulary in spec/ModMC.tla; programs of length <= 5",
+        "the stream handed to WithLayerAddTar is one small tar in eight forms (plain, gzip, gzip as other tools write it, zstd, xz, bzip2, "
+        "no entries, no end-of-archive blocks); a compressed stream that the caller announces as an uncompressed tar (media type "
+        "argument or WithLayerCompression(none)) is garbage in and not driven; the uncompressed layer is the stored blob with the "
+        "compression its media type announces removed once",
         "the process start time that WithLayerAddTar writes into the new history entry is an input (both runs of a scenario "
         "share one process, so O6 is not checked across processes)",
         "no-op programs are those whose options are no-ops by the documented meaning of the option on the catalogue image "
